@@ -346,17 +346,38 @@ class CallsMixin:
                 else:
                     st.env[oid] = nv
         # havoc what the callee assigns
+        st.meta['replaced'] = []
         for cl in c.get('assigns'):
             for target in speclang.split_top(cl.text, ','):
                 target = target.strip()
                 if target and target != 'nothing':
                     self.havoc_target(st, SpecEnv(st, binds, old), speclang.parse_expr(target))
+        repl = st.meta.pop('replaced', [])
+        if repl:
+            # the arrays of slice arguments whose elements the callee assigns: the postconditions talk about the new
+            # contents (the parameter names are re-bound), and an argument that lives in a field is stored back
+            ids = {o.get_id(): n for o, n in repl}
+            def fixv(v):
+                if isinstance(v, SliceV) and any(a.get_id() in ids for a in v.arrs):
+                    return SliceV([ids.get(a.get_id(), a) for a in v.arrs], v.off, v.len, v.cap, v.etid, v.isnil)
+                return v
+            newbinds = {k: fixv(v) for k, v in binds.items()}
+            pnames = [pn for (pn, pt, _) in sig[1]] if sig is not None else []
+            for pn, an in zip(pnames, e.get('Args') or []):
+                if pn in binds and newbinds[pn] is not binds[pn]:
+                    ax = an
+                    while ax.get('_') == 'ParenExpr': ax = ax['X']
+                    if ax.get('_') == 'SelectorExpr' and ax.get('sel') is not None:
+                        self.assign_to(st, ax, newbinds[pn])
+            binds_post = newbinds
+        else:
+            binds_post = binds
         results = [self.lay.fresh(t, 'r.%s' % (key.split('.')[-1])) for t in rtypes]
         for r, t in zip(results, rtypes):
             for w in self.lay.wf(r, t):
                 st.assume(w)
             self.bound_value(st, r, t)
-        rb = dict(binds)
+        rb = dict(binds_post)
         for n, r in zip(rnames, results):
             rb[n] = r
         if len(results) == 1:
@@ -548,16 +569,16 @@ class CallsMixin:
                         self.bound_value(st, v, f['t'])
                         self.store_field(st, x, self.tt.name(tid), f['n'], f['t'], v)
                         return
+        if target[0] == 'call' and target[1] == ('id', 'elems'):   # elems(s): contents of the slice's backing array
+            x = self.sev(env, target[2][0])
+            self.havoc_elems(st, x)
+            return
         if target[0] == 'call' and target[1][0] == 'id':      # ghost heap cell: out(w)
             g = target[1][1]
             x = self.sev(env, target[2][0])
             cur = self.ghost_read(st, g, x)
             nv = fresh('hv.' + g, cur.term.sort() if isinstance(cur, SeqV) else cur.sort())
             self.ghost_write(st, g, x, SeqV(nv) if isinstance(cur, SeqV) else nv)
-            return
-        if target[0] == 'call' and target[1] == ('id', 'elems'):   # elems(s): contents of the slice's backing array
-            x = self.sev(env, target[2][0])
-            self.havoc_elems(st, x)
             return
         if target[0] == 'un' and target[1] == '*' or (target[0] == 'call' and target[1] == ('id', 'deref')):
             x = self.sev(env, target[2][0] if target[0] == 'call' else target[2])
@@ -584,6 +605,8 @@ class CallsMixin:
     def replace_arrays(self, st, old, new):
         """array update visible through every alias: substitute in all slices of the state."""
         ids = {o.get_id(): n for o, n in zip(old, new)}
+        if 'replaced' in st.meta:
+            st.meta['replaced'] = list(st.meta['replaced']) + list(zip(old, new))
         def fix(v):
             if isinstance(v, SliceV):
                 v2 = SliceV([ids.get(a.get_id(), a) for a in v.arrs], v.off, v.len, v.cap, v.etid, v.isnil)
